@@ -253,8 +253,8 @@ class Class:
                           ^ Constructor.rule  #
                           ^ Method.rule  #
                           ^ StaticMethod.rule  #
-                          ^ Variable.rule  #
                           ^ Operator.rule  #
+                          ^ Variable.rule  #
                           ^ Enum.rule  #
                           ).setParseAction(lambda t: Class.Members(t.asList()))
 
